@@ -30,8 +30,9 @@ NewOri == {Prefix(<<Rz90, Rx90, Ry90, IdM>>, n) : n \in 1..MaxIn}
 \* distinct, asymmetric initial poses; every member shares the path length n
 Code(o) == CASE o = "A" -> 1 [] o = "b" -> 2 [] o = "c" -> 3 [] o = "D" -> 4 [] o = "E" -> 5 [] o = "f" -> 6
 RotOf(k) == CASE k % 4 = 0 -> IdM [] k % 4 = 1 -> Rz90 [] k % 4 = 2 -> Rx90 [] k % 4 = 3 -> Ry90
-InitPath(o, n) == [pos |-> [i \in 1..n |-> <<Code(o) + i, 2 * Code(o) - i, i * Code(o) - 3>>],
-                   ori |-> [i \in 1..n |-> RotOf(Code(o) + i)]]
+\* sh shifts the orientation pattern: with sh = 2 the root collection starts UNROTATED and rotates along its path
+InitPath(o, n, sh) == [pos |-> [i \in 1..n |-> <<Code(o) + i, 2 * Code(o) - i, i * Code(o) - 3>>],
+                       ori |-> [i \in 1..n |-> RotOf(Code(o) + i + sh)]]
 
 Call(op, o, inp, anc, start) == [op |-> op, o |-> o, inp |-> inp, anc |-> anc, start |-> start]
 CallsOn(o) == {Call("move", o, d, NoAnchor, s) : d \in Disps, s \in Starts}
@@ -41,8 +42,8 @@ CallsOn(o) == {Call("move", o, d, NoAnchor, s) : d \in Disps, s \in Starts}
          \cup {Call("reset", o, Scalar(Zero3), NoAnchor, AutoStart)}
 Calls1 == CallsOn("o")      \* the per-object call list (the harness substitutes the target)
 
-Init == /\ \E s \in Shapes, n \in 1..MaxInit :
-             st = [kids |-> KidsOf(s), path |-> [o \in DOMAIN KidsOf(s) |-> InitPath(o, n)]]
+Init == /\ \E s \in Shapes, n \in 1..MaxInit, sh \in {0, 2} :
+             st = [kids |-> KidsOf(s), path |-> [o \in DOMAIN KidsOf(s) |-> InitPath(o, n, sh)]]
         /\ last = [op |-> "init", o |-> "A"]
 Next == \E o \in Objs : \E c \in CallsOn(o) : st' = ApplyPath(st, c) /\ last' = c
 Spec == Init /\ [][Next]_vars
